@@ -185,8 +185,8 @@ def _target_case(rng, tag="random"):
                         float(max(1, max(spans) // rng.randint(1, 12))), rng.randint(1, max(1, max(spans))))
             if total / a <= 400]
     avg = rng.choice(cand or [float(total)])
-    if rng.random() < 0.03:
-        avg = rng.choice([0.5, 0.75])
+    if rng.random() < 0.05 and total <= 150:
+        avg = rng.choice([0.5, 0.75])  # excluded point avg < 1: more bins than bases
     short = rng.random() < 0.4
     annot = None
     if rng.random() < 0.35:
@@ -298,10 +298,12 @@ def to_line(case, impl):
     return line
 
 
-def _float_differs(spans, avg_f):
-    """does the float arithmetic of _split_targets differ from exact arithmetic on one of these spans?"""
+def _float_kind(spans, avg_f):
+    """where the float arithmetic of _split_targets leaves exact arithmetic on one of these spans:
+    "count" (round(span/avg) differs), "cuts" (some int(i*span/n) differs) or None"""
     import numpy as np
     avg_q = Fraction(avg_f)
+    kind = None
     for span in set(spans):
         if span <= 0:
             continue
@@ -312,14 +314,15 @@ def _float_differs(spans, avg_f):
         nq = fl if d < Fraction(1, 2) else (fl + 1 if d > Fraction(1, 2) else (fl if fl % 2 == 0 else fl + 1))
         nq = nq or 1
         if nf != nq:
-            return True
-        if nf > 20000:
+            return "count"
+        if nf > 20000 or kind:
             continue
         bs = np.int64(span) / nf
         for k in range(1, nf):
             if int(k * bs) != (k * span) // nf:
-                return True
-    return False
+                kind = "cuts"
+                break
+    return kind
 
 
 def judge(case, impl, resp):
@@ -357,9 +360,15 @@ def judge(case, impl, resp):
         elif [r[3] for r in impl["rows"]] != [r[3] for r in out["rows"]]:
             disagree.append("target: labels differ")
     if (disagree or spec) and (case["op"] == "antitarget" or i["split"]):
-        spans = [r[2] - r[1] for r in resp.get("regions", [])]
-        if _float_differs(spans, i["avg_f"]):
-            return [], [], "float round/floor differs from exact arithmetic"
+        kind = _float_kind([r[2] - r[1] for r in resp.get("regions", [])], i["avg_f"])
+        if kind == "count":
+            # round(span/avg) sits on a .5 boundary up to the last ulp: the bin count itself is knife-edge
+            return [], [], "float round(span/avg) differs from the exact rounding"
+        if kind == "cuts" and not spec:
+            # a cut int(i*span/n) is one base off the exact floor; the property's clauses hold on the real bins
+            return [], [], "float int(i*span/n) differs from the exact floor (spec clean on the real output)"
+        if kind == "cuts":
+            disagree = []
     return spec, disagree, None
 
 
